@@ -21,6 +21,6 @@ export PYTHONHASHSEED=0 PYTHONDONTWRITEBYTECODE=1 NIXPY_VERIF=1 HDF5_USE_FILE_LO
 for c in $checks; do
   timeout 1200 /venv/bin/python -W ignore -m coverage run --rcfile=$W/rc -m mc.core $c $tier 2>&1 | tail -1 | cut -c1-200
 done
-cd $W && /venv/bin/python -m coverage combine --rcfile=$W/rc -q --data-file=$W/all.cov $W/data
-/venv/bin/python -m coverage report --rcfile=$W/rc --data-file=$W/all.cov -m > $W/report.txt 2>&1
+cd $W && /venv/bin/python -m coverage combine --rcfile=$W/rc -q
+/venv/bin/python -m coverage report --rcfile=$W/rc -m > $W/report.txt 2>&1
 tail -45 $W/report.txt | cut -c1-60
